@@ -9,7 +9,7 @@
     upload <c|d> <hex> <contenthex> ## <obs>
     create <name4> from <name4> | files <k> {<c|d> <hex>}*   then
            <tmplhex|~> <0|1> <syshex|~> <nl> {<licensehex>}* <np> {<keyhex> <valhex>}* <stream|nostream>
-           [msgs <k> {<rolehex> <contenthex>}*] ## <obs>
+           [msgs <k> {<rolehex> <contenthex>}*] [fromreg <k> {<media> <contenthex> <servedhex|=>}* C <cfghex> <servedhex|=>] ## <obs>
     copy <name4> <name4> ## <obs>
     delete <name4> ## <obs>
     prune ## <obs>
@@ -89,6 +89,9 @@ def pCreate : TP CreateReq := do
   pure { name, src, files, template := tmpl.map (fun t => (t, tok1 != 0)), system := sys, licenses := lics, params,
          messages }
 
+/-- what the registry serves for the FROM name of a create (suffix `fromreg <k> {layer}* <config>`) -/
+abbrev FromReg := Option (Manifest × List (String × Bytes))
+
 def showName (n : Name) : String := s!"{n.host}/{n.ns}/{n.model}:{n.tag}"
 
 def mediaCode : Media → String
@@ -118,6 +121,8 @@ structure OState where
   v : Variant
   /-- OLLAMA_NOPRUNE at this point of the history (`noprune 0|1`; `reset` clears it) -/
   noPrune : Bool := false
+  /-- (N4) `CreateHandler` resolves the FROM name with `getExistingName` before `parseFromModel` (probed) -/
+  fixFrom : Bool := false
 
 def sha (c : Bytes) : String := hexOf (Sha256.sha256 c)
 
@@ -129,11 +134,15 @@ def resolveAll (env : Env) (st : Store) (n : Name) : List Name :=
   if env.v.fixResolve then [getExistingNameFixed st.readableNames n] else resolutions st.readableNames n
 
 /-- all outcomes of a state-changing operation -/
-def outcomes (env : Env) (st : Store) : Op → List (Store × List String)
+def outcomes (env : Env) (st : Store) (fixFrom : Bool := false) : Op → List (Store × List String)
   | .create r =>
     let names := resolveAll env st r.name
     let frevs := if r.src.isNone && r.files.length ≥ 2 then [false, true] else [false]
-    names.flatMap (fun nm => frevs.map (fun fr => createAt env st r nm fr))
+    -- (N4 repaired) the FROM name goes through `getExistingName` too before `parseFromModel` sees it
+    let reqs : List CreateReq := match r.src with
+      | some f => if fixFrom then (resolveAll env st f).map (fun sn => { r with src := some sn }) else [r]
+      | none => [r]
+    names.flatMap (fun nm => reqs.flatMap (fun r' => frevs.map (fun fr => createAt env st r' nm fr)))
   | .copy s d =>
     (resolveAll env st s).flatMap (fun s' =>
       (resolveAll env st d).map (fun d' => copyAt st s' d'))
@@ -171,6 +180,40 @@ def pPull : TP Op := do
     let lay (x : Media × Bytes × Bytes) : Layer := ⟨x.1, ⟨.colon, sha x.2.1⟩, x.2.1.length⟩
     let served := (ls ++ [cfg]).map (fun x => (sha x.2.1, x.2.2))
     pure (.pull n (some ⟨lay cfg, ls.map lay⟩) served)
+
+/-- the optional suffix `fromreg <k> {<media> <contenthex> <servedhex|=>}* C <cfghex> <servedhex|=>` of a create -/
+def pFromReg : TP FromReg := do
+  let rest ← get
+  match rest with
+  | "fromreg" :: _ => do
+    let _ ← tok
+    let cnt ← nat
+    let ls ← rep cnt pRegLayer
+    let cfg ← pRegLayer
+    let lay (x : Media × Bytes × Bytes) : Layer := ⟨x.1, ⟨.colon, sha x.2.1⟩, x.2.1.length⟩
+    pure (some (⟨lay cfg, ls.map lay⟩, (ls ++ [cfg]).map (fun x => (sha x.2.1, x.2.2))))
+  | _ => pure none
+
+/-- `create … from F` when the registry answer for F is scripted: `CreateHandler` resolves the TARGET name first
+    (and reads the manifest it will replace), then `parseFromModel` looks for F's manifest — under the name as
+    written in the request (pinned, finding N4) or as `getExistingName` resolves it (repaired) — and, when that
+    file does not exist, runs `PullModel` on that name (its own `success` status is one more `s`), reads the
+    manifest back and goes on as for a local FROM.  Composition of the model's `pullAt` and `createAt`; the
+    driver never generates F fold-equal to the target. -/
+def createFromOutcomes (env : Env) (fixFrom : Bool) (st : Store) (r : CreateReq) (f : Name)
+    (reg : Manifest × List (String × Bytes)) : List (Store × List String) :=
+  let names := resolveAll env st r.name
+  let srcs := if fixFrom then resolveAll env st f else [f]
+  names.flatMap (fun nm => srcs.map (fun sn =>
+    let r' := { r with src := some sn }
+    match st.man sn with
+    | some _ => createAt env st r' nm false
+    | none =>
+      match pullAt env st sn (some reg.1) reg.2 with
+      | (st1, ["s"]) =>
+        let (st2, ev) := createAt env st1 r' nm false
+        (st2, "s" :: ev)
+      | (st1, _) => (st1, ["e500"])))
 
 def pOp : TP Op := do
   let k ← tok
@@ -231,6 +274,8 @@ def handle (s : OState) (toks : List String) : OState × String :=
     let mine := obs ["ok"] s.st
     (s', if mine == o then o else mine)
   | ["variant", a, b, c, d, e] => ({ s with v := ⟨a == "1", b == "1", c == "1", d == "1", e == "1"⟩ }, "ok")
+  | ["variant", a, b, c, d, e, f] =>
+    ({ s with v := ⟨a == "1", b == "1", c == "1", d == "1", e == "1"⟩, fixFrom := f == "1" }, "ok")
   | "meta" :: rest =>
     match runTP (do
       let c ← hex
@@ -252,10 +297,18 @@ def handle (s : OState) (toks : List String) : OState × String :=
     | none => (s, "bad-op")
   | _ =>
     let (a, o) := splitObs toks
-    match runTP pOp a with
-    | some op =>
+    match runTP (do
+        let op ← pOp
+        let fr ← pFromReg
+        pure (op, fr)) a with
+    | some (op, fr) =>
       let env := envOf s.metas s.v s.noPrune
-      let outs := outcomes env s.st op
+      let outs := match op, fr with
+        | .create r, some reg =>
+          match r.src with
+          | some f => createFromOutcomes env s.fixFrom s.st r f reg
+          | none => outcomes env s.st s.fixFrom op
+        | _, _ => outcomes env s.st s.fixFrom op
       match outs.find? (fun (st', res) => obs res st' == o) with
       | some (st', _) => ({ s with st := st' }, o)
       | none =>
@@ -277,4 +330,4 @@ end Oracle.C04
 def main (_ : List String) : IO Unit := do
   let stdin ← IO.getStdin
   let stdout ← IO.getStdout
-  Oracle.C04.loop stdin stdout ⟨OllamaVerif.Store.Store.empty, [], OllamaVerif.Store.Variant.pinned, false⟩
+  Oracle.C04.loop stdin stdout ⟨OllamaVerif.Store.Store.empty, [], OllamaVerif.Store.Variant.pinned, false, false⟩
